@@ -35,6 +35,15 @@ if typing.TYPE_CHECKING:
         )
 
 
+def _as_table(arr, index=None) -> pd.DataFrame:
+    """Return `arr` as a DataFrame (tables are passed through, None becomes empty)."""
+    if arr is None:
+        return pd.DataFrame()
+    if isinstance(arr, pd.DataFrame):
+        return arr
+    return pd.DataFrame(np.asarray(arr), index=index)
+
+
 class GeometryMixin:
     """
     Mixin that gives the ability to define the geometry the instance of the setup class.
@@ -95,11 +104,11 @@ class GeometryMixin:
         file_dict = {
             "sensors names": sens_names,
             "sensors coordinates": sens_coord,
-            "sensors directions": sens_dir,
-            "sensors lines": sens_lines if sens_lines is not None else pd.DataFrame(),
-            "BG nodes": bg_nodes if bg_nodes is not None else pd.DataFrame(),
-            "BG lines": bg_lines if bg_lines is not None else pd.DataFrame(),
-            "BG surfaces": bg_surf if bg_surf is not None else pd.DataFrame(),
+            "sensors directions": _as_table(sens_dir, index=sens_coord.index),
+            "sensors lines": _as_table(sens_lines),
+            "BG nodes": _as_table(bg_nodes),
+            "BG lines": _as_table(bg_lines),
+            "BG surfaces": _as_table(bg_surf),
         }
 
         # check on input
@@ -176,13 +185,13 @@ class GeometryMixin:
             "sensors names": sens_names,
             "points coordinates": pts_coord,
             "mapping": sens_map,
-            "constraints": cstr if cstr is not None else pd.DataFrame(),
-            "sensors sign": sens_sign if sens_sign is not None else pd.DataFrame(),
-            "sensors lines": sens_lines if sens_lines is not None else pd.DataFrame(),
-            "sensors surfaces": sens_surf if sens_surf is not None else pd.DataFrame(),
-            "BG nodes": bg_nodes if bg_nodes is not None else pd.DataFrame(),
-            "BG lines": bg_lines if bg_lines is not None else pd.DataFrame(),
-            "BG surfaces": bg_surf if bg_surf is not None else pd.DataFrame(),
+            "constraints": _as_table(cstr),
+            "sensors sign": _as_table(sens_sign),
+            "sensors lines": _as_table(sens_lines),
+            "sensors surfaces": _as_table(sens_surf),
+            "BG nodes": _as_table(bg_nodes),
+            "BG lines": _as_table(bg_lines),
+            "BG surfaces": _as_table(bg_surf),
         }
 
         # check on input
